@@ -546,6 +546,10 @@ fn compare_with_sequential_twin(sc: &Scenario, ao: &AsyncOut, out: &mut Vec<Viol
 }
 
 pub fn eval_async_on(b: &mut BuiltAsync, sc: &Scenario, strat: &StratSpec, rs: u64, trace: Option<Vec<u32>>) -> AsyncEval {
+    if b.layout.ident_panic.is_none() && !crate::dfamily::rendezvous_well_formed(sc, &b.layout, &b.ctx.infos) {
+        // (see there: an edited scenario whose rendezvous members cannot meet by construction)
+        return AsyncEval { violations: vec![], digest: 0, inter_digest: 0, trace: vec![], steps: 0, switches: 0, tasks: 0, overlap_pairs: 0, ops: vec![], blocked_ops: 0 };
+    }
     let ao = run_async(b, sc, strat, rs, trace);
     let infos = &b.ctx.infos;
     let mut out = Vec::new();
